@@ -54,9 +54,22 @@ def run_impl(spec, degree, use_antecedent, row, history=None):
     if history in ("reload", "reload2"):
         for _ in range(1 if history == "reload" else 2):
             rule.load(eng)
+    elif history == "programmatic":
+        # the conclusions are assembled through the public constructors, re-using one list object for the hedges
+        hf = fl.settings.factory_manager.hedge
+        r = spec["blocks"][0]["rules"][0]
+        hs: list = []
+        props = []
+        for c in r["cons"]:
+            hs.clear()
+            hs.extend(hf.construct(h) for h in c["hedges"])
+            v = eng.output_variable(c["var"])
+            props.append(fl.Proposition(v, hs, v.term(c["term"])))
+        hs.clear()
+        rule.consequent.conclusions = props
     elif history == "retext":
         r = spec["blocks"][0]["rules"][0]
-        alt = dict(r, cons=list(reversed(r["cons"])) + r["cons"][:1])
+        alt = dict(r, cons=list(reversed(r["cons"])) + r["cons"][:1], weight=0.5 if r.get("weight") is None else None)
         rule.text = gen.rule_text(alt)
         rule.load(eng)
         rule.text = gen.rule_text(r)
@@ -202,7 +215,7 @@ def cases(draw):
     spec = {"name": "E", "inputs": [inp], "outputs": outputs, "blocks": [block]}
     deg = st.one_of(gen.unit_degree(), st.sampled_from(SPECIAL))
     k = draw(st.integers(0, 5))
-    hist = draw(st.sampled_from([None, None, None, "reload", "reload2", "retext"]))
+    hist = draw(st.sampled_from([None, None, None, "reload", "reload2", "retext", "programmatic"]))
     if k == 0:
         return {"spec": spec, "use_antecedent": True, "row": draw(gen.input_row(spec)), "degree": None, "history": hist}
     if k == 1:
